@@ -131,6 +131,58 @@ def run(tier, seed, opens):
         else:
             what = 'round trip' if back != raw else 'txid'
             fail(what, raw, (back.hex()[:300] if back != raw else t.txid), (raw.hex()[:300] if back != raw else dsha(stripped)[::-1].hex()), pid)
+    # the DEFAULT (strict) reader on transactions with standard scripts only: P2PKH scriptSigs <sig> <pubkey> (DER-shaped signature, 33-byte key), P2WPKH
+    # and P2SH-P2WPKH witnesses, standard output scripts.  It may refuse (strict), but what it accepts must serialise back to the same bytes.  A scriptSig
+    # whose signature is pushed with OP_PUSHDATA1 (legal, not minimal) is rebuilt with the minimal push: recorded finding, pinned to exactly that difference
+    from spec.pins_c18 import lex as _lex
+    def _sig(ht=1):
+        rr = bytes([rng.randrange(1, 0x7f)]) + bytes(rng.getrandbits(8) for _ in range(31))
+        ss = bytes([rng.randrange(1, 0x7f)]) + bytes(rng.getrandbits(8) for _ in range(31))
+        d = b'\x02\x20' + rr + b'\x02\x20' + ss
+        return b'\x30' + bytes([len(d)]) + d + bytes([ht])
+    def _pubk():
+        return bytes([rng.choice([2, 3])]) + bytes(rng.getrandbits(8) for _ in range(32))
+    std_out = lambda: rng.choice([b'\x76\xa9\x14' + bytes(rng.getrandbits(8) for _ in range(20)) + b'\x88\xac', b'\xa9\x14' + bytes(rng.getrandbits(8) for _ in range(20)) + b'\x87',
+                                  b'\x00\x14' + bytes(rng.getrandbits(8) for _ in range(20)), b'\x00\x20' + bytes(rng.getrandbits(8) for _ in range(32)), b'\x51\x20' + bytes(rng.getrandbits(8) for _ in range(32))])
+    for _ in range(40 if tier == 'quick' else 1500):
+        cases += 1
+        sins, nonminimal = [], False
+        for k in range(rng.choice([1, 1, 2, 3])):
+            kind = rng.choice(['p2pkh', 'p2pkh', 'p2wpkh', 'p2sh-p2wpkh'])
+            sg, pk = _sig(), _pubk()
+            if kind == 'p2pkh':
+                if rng.random() < 0.2:
+                    script, nonminimal = b'\x4c' + bytes([len(sg)]) + sg + bytes([len(pk)]) + pk, True
+                else:
+                    script = bytes([len(sg)]) + sg + bytes([len(pk)]) + pk
+                wit = []
+            else:
+                import hashlib as _hl
+                script = b'' if kind == 'p2wpkh' else b'\x16\x00\x14' + _hl.new('ripemd160', _hl.sha256(pk).digest()).digest()      # the program of THIS key
+                wit = [sg, pk]
+            sins.append((bytes(rng.getrandbits(8) for _ in range(32)), rng.choice([0, 1, 5]), script, rng.choice([0xffffffff, 0xfffffffe, 0]), wit))
+        souts = [(rng.choice([546, 10 ** 8, rng.getrandbits(40)]), std_out()) for _ in range(rng.choice([1, 2]))]
+        segw = any(i[4] for i in sins)
+        raw = wire.ser_tx(rng.choice([1, 2]), sins, souts, rng.choice([0, 500000]), segw)
+        try:
+            back = Transaction.parse(raw).raw()
+        except Exception:
+            ok += 1          # a strict reader may refuse
+            continue
+        if back == raw:
+            ok += 1
+            continue
+        pid = None
+        if nonminimal:
+            try:
+                v1, i1, o1, l1, w1, u1 = wire.parse_tx(raw)
+                v2, i2, o2, l2, w2, u2 = wire.parse_tx(back)
+                same_but_scripts = (v1, o1, l1, w1) == (v2, o2, l2, w2) and [(a, b, d, e) for a, b, c, d, e in i1] == [(a, b, d, e) for a, b, c, d, e in i2]
+                if same_but_scripts and all(x[2] == y[2] or (x[2][:1] == b'\x4c' and _lex(x[2]) == _lex(y[2])) for x, y in zip(i1, i2)):
+                    pid = 'F-C06-strict-rebuilds-nonminimal-push'
+            except Exception:
+                pass
+        fail('round trip through the default (strict) reader', raw, back.hex()[:300], raw.hex()[:300], pid)
     # transactions built through the API: the bytes, read by the independent parser, carry exactly the fields that were supplied
     from bitcoinlib.transactions import Input, Output
     for _ in range(60 if tier == 'quick' else 3000):
